@@ -85,3 +85,27 @@ class Report:
             code = 2
         print("[%s] tier=%s evaluations=%d distinct_nontrivial=%d violations=%d wall=%.1fs" % (self.pid, self.tier, self.evaluations, self.nontrivial, len(self.violations), time.time() - self.t0), flush=True)
         return code
+
+
+def gc_deps(profile_dir, keep=2):
+    """cargo never collects artifacts of earlier versions of a path dependency: every edit of /repo leaves a stale
+    libfips204-<hash> (and dependents) behind. Keep the `keep` newest files per (crate, extension), delete the rest."""
+    import glob, re
+    deps = os.path.join(profile_dir, "deps")
+    if not os.path.isdir(deps):
+        return 0
+    groups = {}
+    for f in os.listdir(deps):
+        m = re.match(r"^(lib)?(fips204|cfgprobe|nostd_probe|engines|mc|cttrace|osrng_probe|refmodel)-[0-9a-f]{16}(\..*)?$", f)
+        if m:
+            groups.setdefault((m.group(2), m.group(3) or ""), []).append(os.path.join(deps, f))
+    removed = 0
+    for files in groups.values():
+        files.sort(key=lambda x: os.path.getmtime(x), reverse=True)
+        for f in files[keep:]:
+            try:
+                os.remove(f)
+                removed += 1
+            except OSError:
+                pass
+    return removed
